@@ -3,7 +3,8 @@ import json, os
 from common import *
 
 C11_REASONS = {"lost-notification", "stale-read", "message-dropped-by-loop", "invented-text"}
-C12_REASONS = {"no-response", "duplicate-response", "error-for-valid-request", "response-to-nothing", "unclean-exit"}
+C12_REASONS = {"no-response", "duplicate-response", "error-for-valid-request", "response-to-nothing", "unclean-exit",
+               "wrong-answer-after-earlier-requests"}
 
 
 def attribute(reason):
@@ -152,7 +153,16 @@ def check_c12(tier):
         total += n
         if len(res.cov["samples"]) < 3:
             res.cov["samples"].append({"request_sequence": json.loads(open(path).readline()), "from": cfg})
-        replay_and_judge(res, work, "router-seq", path, name, 12, [], pid)
+        base = os.path.join(work, "baseline.ndjson")
+        if name == "seq1":
+            replay_and_judge(res, work, "router-seq", path, name, 12, ["--emit-baseline", base], pid)
+            with open(base, "w") as bf:
+                for i in range(12):
+                    if os.path.exists("%s.%d" % (base, i)):
+                        bf.write(open("%s.%d" % (base, i)).read())
+            res.cov["baseline_answers"] = sum(1 for _ in open(base))
+        else:
+            replay_and_judge(res, work, "router-seq", path, name, 12, ["--baseline", base], pid)
     # scheduled behaviours with panicking requests
     path, n, r = gen("MC_Gen_Router.tla", "Gen_Router_small.cfg", "SCHED", work, "sched", workers=4)
     res.add_tlc("gen:Gen_Router_small.cfg", r)
